@@ -29,11 +29,17 @@ def main():
     extra = []
     if '--also' in args:
         extra = args[args.index('--also') + 1].split(',')
-    ids = [a for a in args if not a.startswith('--') and a not in (tier,) + tuple([','.join(extra)])]
+    skip = set()
+    for flag in ('--tier', '--also', '--out'):
+        if flag in args:
+            skip.add(args[args.index(flag) + 1])
+    ids = [a for a in args if not a.startswith('--') and a not in skip]
     sdir = os.path.join(V, 'seeded')
     if not ids:
         ids = sorted(d for d in os.listdir(sdir) if os.path.isdir(os.path.join(sdir, d)) and not d.startswith('_'))
     respath = os.path.join(sdir, 'RESULTS.json')
+    if '--out' in args:
+        respath = args[args.index('--out') + 1]
     results = json.load(open(respath)) if os.path.exists(respath) else {}
     for sid in ids:
         d = os.path.join(sdir, sid)
